@@ -82,7 +82,11 @@ func ParsePath(path string) (PathType, PathSubType, error) {
 
 // GetRepo returns repo name
 func GetRepo(path string) (string, error) {
-	re := regexp.MustCompile("^.+/repositories/(.+)/(?:_manifests|_layers|_uploads)")
+	// Non-greedy on both sides: the repository starts after the first
+	// "repositories" segment and ends before the first layout directory, so
+	// that repositories containing a "repositories" component and tags named
+	// like a layout directory are parsed correctly.
+	re := regexp.MustCompile("^.+?/repositories/(.+?)/(?:_manifests|_layers|_uploads)")
 	matches := re.FindStringSubmatch(path)
 	if len(matches) < 2 {
 		return "", InvalidRegistryPathError{_repositories, path}
